@@ -340,6 +340,8 @@ pub fn free_port() -> std::io::Result<u16> {
 // local connections (the users of the tunnel)
 // ---------------------------------------------------------------------------------------
 
+/// (the times are evidence: they are printed with the observation)
+#[allow(dead_code)]
 #[derive(Clone, Debug)]
 pub enum LocalRes {
     /// the token came back unmodified
@@ -352,6 +354,7 @@ pub enum LocalRes {
     Corrupt { connected_ms: f64, got_hex: String },
 }
 
+#[allow(dead_code)]
 pub struct LocalConn {
     /// why it was opened: "down", "timeout", "nudge", "probe"
     pub origin: &'static str,
